@@ -35,7 +35,9 @@ SPEC = {
             "cell values current at that run, using the implementation's logged draws; the history machine answers the not-executed calls. "
             "(B) after every run the object's register and quantum state are compared with an independent reference: a fresh Circuit "
             "holding the cell values of each run as direct parameters and executing, in one run from the same generator stream, everything "
-            "since the last execute. Non-trivial = a call line or a step that changes state; distinct = distinct request line.",
+            "since the last execute; plus FEEDBACK circuits (X on q if c_q = 1; measure q into an upper bit; H; measure_all - also with a split "
+            "in the middle and with entangling CX) executed and re-executed four times on 1-5 qubits, 10-200 shots, both representations: the "
+            "upper bits must be 0 in every shot of every run, which holds iff each shot's quantum state is the one of its own classical word. Non-trivial = a call line or a step that changes state; distinct = distinct request line.",
 }
 
 
